@@ -1,18 +1,19 @@
 (* C08 -- CRAM codecs and integer codings decode exactly what was encoded, per the spec.
    Property theorems only; each is closed by [exact] of a lemma proved in theories/Cram and is
    followed by Print Assumptions.  Models: NV.Cram.Itf8 / Ltf8 / Vlq (bit-exact models of
-   noodles-cram io/{reader,writer}/num/*.rs) and NV.Cram.Rans4x8 (faithful model of the rANS 4x8
+   noodles-cram io/{reader,writer}/num/*.rs), NV.Cram.Rans4x8 (faithful model of the rANS 4x8
    order-0 ENCODER of noodles, and an INDEPENDENT decoder for orders 0 and 1 written from the
-   CRAM codecs specification).
+   CRAM codecs specification) and NV.Cram.Rans4x8O1 (faithful model of the order-1 ENCODER).
 
    The models describe the REPAIRED code (fix commits 01-16 of the C08 series).
-   PARTIAL: proved in full for the three integer codings and for rANS 4x8 order 0 (every byte
-   string, whole stream, against the independent decoder); order 1, rANS Nx16, the arithmetic
+   PARTIAL: proved in full for the three integer codings and for rANS 4x8 orders 0 AND 1 (every
+   byte string, whole stream, against the independent decoder); rANS Nx16, the arithmetic
    coder, fqzcomp, the name tokenizer and gzip/bzip2/lzma have no theorem (implementation-side
    oracle only). *)
 From Coq Require Import List NArith ZArith.
 From NV Require Import Cram.Bytes Cram.Itf8 Cram.Ltf8 Cram.Vlq Cram.IntProofs Cram.Rans4x8 Cram.Rans4x8Proofs
-  Cram.Rans4x8Table.
+  Cram.Rans4x8Table Cram.Rans4x8O1 Cram.Rans4x8O1Proofs Cram.Rans4x8O1Table Cram.Rans4x8O1Full
+  Cram.Nx16Xform Cram.Nx16XformProofs.
 Import ListNotations.
 Open Scope N_scope.
 
@@ -137,12 +138,101 @@ Theorem c08_rans4x8_o0_roundtrip : forall src,
 Proof. exact rans4x8_o0_roundtrip. Qed.
 Print Assumptions c08_rans4x8_o0_roundtrip.
 
-(* the full C08 statement, NOT proved beyond the parts above: order 1 of rANS 4x8 (independent
-   decoder modelled and compared, encoder not modelled), rANS Nx16, the adaptive arithmetic coder,
-   fqzcomp, the name tokenizer and gzip/bzip2/lzma have no Gallina model *)
+(* ---------------- rANS 4x8 order 1 ---------------- *)
+
+(* payload: the four interleaved states, each coding one quarter of the input in the context of
+   the previous byte (NUL for the first), the fourth one also the remainder -- for ANY 256x256
+   table in which every (context, symbol) pair that is coded has a non-zero frequency in a row
+   summing to at most 4096: RansDecode1 returns the four quarters and the remainder *)
+Theorem c08_rans4x8_o1_core_roundtrip : forall F1 c0 c1 c2 c3 rem k0 k1 k2 k3,
+  length c1 = length c0 -> length c2 = length c0 -> length c3 = length c0 ->
+  chain (ok1 F1) k0 c0 -> chain (ok1 F1) k1 c1 -> chain (ok1 F1) k2 c2 ->
+  chain (ok1 F1) k3 (c3 ++ rem) ->
+  exists s0 s1 s2 s3 stack,
+    enc1_main F1 (map cumulative F1) k0 k1 k2 k3 c0 c1 c2 c3 rem = Some (s0, s1, s2, s3, stack) /\
+    state_ok s0 /\ state_ok s1 /\ state_ok s2 /\ state_ok s3 /\
+    forall rest, exists sl mid,
+      spec_decode1_main (length c0) F1 (mk1 s0 k0) (mk1 s1 k1) (mk1 s2 k2) (mk1 s3 k3) (stack ++ rest)
+        = Some (c0, c1, c2, c3, sl, mid) /\
+      spec_decode1_tail (length rem) F1 sl mid = Some (rem, rest).
+Proof. exact rans4x8_o1_core_roundtrip. Qed.
+Print Assumptions c08_rans4x8_o1_core_roundtrip.
+
+(* the order-1 table: contexts that occur, run-length coded, each with its row in the order-0
+   format -- what write_frequencies (order_1.rs) writes, ReadFrequencies1 reads *)
+Theorem c08_freq_table1_roundtrip : forall F1 rest,
+  length F1 = 256%nat -> Forall rowv F1 -> (exists fs, In fs F1 /\ in_alphabet fs = true) ->
+  spec_read_frequencies1 (write_frequencies1 F1 ++ rest) = Some (F1, rest).
+Proof. exact freq_table1_roundtrip. Qed.
+Print Assumptions c08_freq_table1_roundtrip.
+
+(* the specification forbids order 1 below 4 bytes: the encoder refuses with InvalidInput *)
+Theorem c08_rans4x8_o1_short : forall src, (length src < 4)%nat -> encode_o1 src = EncInvalidInput.
+Proof. exact rans4x8_o1_short. Qed.
+Print Assumptions c08_rans4x8_o1_short.
+
+(* THE order-1 statement: for EVERY byte string of at least 4 bytes (and at most 2^32 - 5, so that
+   no u32 counter of build_raw_frequencies wraps) the encoder terminates without panicking and the
+   independent specification decoder maps the stream it emits -- header, context table, states,
+   payload -- back to the input.  No side condition on the symbol distribution is left. *)
+Theorem c08_rans4x8_o1_roundtrip : forall src,
+  Forall (fun x => x < 256) src -> (4 <= length src)%nat -> N.of_nat (length src) + 4 < 4294967296 ->
+  exists bytes, encode_o1 src = EncOk bytes /\ spec_decode bytes = Some src.
+Proof. exact rans4x8_o1_roundtrip. Qed.
+Print Assumptions c08_rans4x8_o1_roundtrip.
+
+(* ---------------- rANS Nx16: flag byte and the transforms in front of the entropy coder ---------------- *)
+
+(* the flag byte written by the encoder is read back as the same flag set *)
+Theorem c08_nx_flags_roundtrip : forall f, flags_of_byte (byte_of_flags f) = f /\ byte_of_flags f < 256.
+Proof. exact nx_flags_roundtrip. Qed.
+Print Assumptions c08_nx_flags_roundtrip.
+
+(* RLE, the loop: for ANY alphabet the literals and run lengths written by rle::encode are
+   expanded by rle::decode's loop to the input *)
+Theorem c08_nx_rle_core_roundtrip : forall A fuel src l m rest fuel2,
+  (length src <= fuel)%nat -> (length src <= fuel2)%nat -> N.of_nat (length src) < 4294967296 ->
+  rle_enc fuel A src = (l, m) ->
+  rle_dec fuel2 A l (m ++ rest) (length src) = DOk src.
+Proof. exact rle_core_roundtrip. Qed.
+Print Assumptions c08_nx_rle_core_roundtrip.
+
+(* RLE with the meta-data layout (symbol count with 0 = 256, alphabet, run lengths) *)
+Theorem c08_nx_rle_roundtrip : forall A src lits runs,
+  (1 <= length A <= 256)%nat -> N.of_nat (length src) < 4294967296 ->
+  rle_enc (length src) A src = (lits, runs) ->
+  rle_decode lits (rle_alphabet_bytes A ++ runs) (length src) = DOk src.
+Proof. exact rle_roundtrip. Qed.
+Print Assumptions c08_nx_rle_roundtrip.
+
+(* bit PACK: every table of 1..16 symbols containing the input's symbols, all four widths *)
+Theorem c08_nx_pack_roundtrip : forall syms src,
+  (1 <= length syms <= 16)%nat -> (forall x, In x src -> In x syms) ->
+  pack_decode syms (pack_encode syms src) (length src) = DOk src.
+Proof. exact pack_roundtrip. Qed.
+Print Assumptions c08_nx_pack_roundtrip.
+
+(* whole stream, CAT (given, or forced because fewer than N bytes are coded), any ORDER / N32 /
+   NO_SIZE: noodles' decoder model returns the input *)
+Theorem c08_nx_cat_roundtrip : forall f src,
+  f_stripe f = false -> f_pack f = false -> f_rle f = false ->
+  f_cat f = true \/ (length src < state_count f)%nat ->
+  N.of_nat (length src) < 4294967296 ->
+  exists bytes, nx_encode f src = NxOk bytes /\ nx_decode bytes (N.of_nat (length src)) = DOk src.
+Proof. exact nx_cat_roundtrip. Qed.
+Print Assumptions c08_nx_cat_roundtrip.
+
+(* NOT proved as a whole: the streams with PACK and/or RLE contexts (the component round trips
+   above composed with the context layouts); compared with the implementation only *)
+Definition c08_nx_xform_full_statement : Prop := nx_xform_full_statement.
+
+(* the full C08 statement, NOT proved beyond the parts above: the rANS Nx16 entropy coders and
+   STRIPE, the adaptive arithmetic coder, fqzcomp, the name tokenizer and gzip/bzip2/lzma have no
+   Gallina model *)
 Definition c08_full_statement_informal : Prop :=
-  forall src, Forall (fun x => x < 256) src -> N.of_nat (length src) < 4294967296 ->
-    (exists bytes, encode_o0 src = EncOk bytes /\ spec_decode bytes = Some src)
+  forall src, Forall (fun x => x < 256) src -> N.of_nat (length src) + 4 < 4294967296 ->
+    (exists bytes, encode_o0 src = EncOk bytes /\ spec_decode bytes = Some src) /\
+    ((4 <= length src)%nat -> exists bytes, encode_o1 src = EncOk bytes /\ spec_decode bytes = Some src)
     (* /\ the same for every other codec of the property statement *).
 
 (* ---------------- non-vacuity ---------------- *)
@@ -171,3 +261,30 @@ Example c08_end_to_end_example :
   let src := [0; 2; 0; 2; 7; 7; 7; 9; 0; 200; 255; 0; 2] in
   spec_decode (bytes_of_result (encode_o0 src)) = Some src.
 Proof. vm_compute. reflexivity. Qed.
+
+Example c08_order1_example :
+  let src := [110; 111; 111; 100; 108; 101; 115; 0; 0; 255; 255; 254; 110; 111] in
+  spec_decode (bytes_of_result (encode_o1 src)) = Some src /\ encode_o1 [1; 2; 3] = EncInvalidInput.
+Proof. vm_compute. split; reflexivity. Qed.
+
+(* the order-1 test vector of noodles (encode.rs test_encode_with_order_1, "noodles") *)
+Example c08_order1_noodles_vector :
+  encode_o1 [110; 111; 111; 100; 108; 101; 115] = EncOk
+    [1; 59; 0; 0; 0; 7; 0; 0; 0; 0; 100; 131; 255; 110; 131; 255; 111; 0; 136; 1; 0; 100; 108; 143;
+     255; 0; 101; 0; 115; 143; 255; 0; 108; 101; 143; 255; 0; 110; 111; 143; 255; 0; 111; 0; 100;
+     135; 255; 111; 136; 0; 0; 0; 7; 132; 0; 2; 0; 232; 255; 0; 0; 232; 255; 0; 16; 224; 0; 2].
+Proof. vm_compute. reflexivity. Qed.
+
+(* Nx16 transforms on concrete inputs: PACK|RLE|CAT (2 symbols, 8 per byte), RLE|CAT with a run of
+   200, PACK of a single symbol (nothing stored, CAT forced), PACK refused for 17 symbols *)
+Example c08_nx_xform_examples :
+  let rt fb src := match nx_encode_byte fb src with
+                   | NxOk b => nx_decode b (N.of_nat (length src))
+                   | _ => DErr end in
+  let s1 := [7; 7; 7; 9; 9; 7; 7; 7; 7; 7; 7; 9; 7; 7; 7; 7; 7; 7; 7; 7; 7; 7; 7; 7; 7; 7; 7; 7; 7; 7; 7; 7; 7; 7; 9] in
+  let s2 := 3 :: repeat 5 200 ++ [3; 4; 4; 4] in
+  let s3 := repeat 66 50 in
+  let s4 := map N.of_nat (seq 10 17) in
+  rt 224 s1 = DOk s1 /\ rt 96 s2 = DOk s2 /\ rt 128 s3 = DOk s3 /\ rt 160 s4 = DOk s4 /\
+  nx_encode_byte 128 s3 = NxOk [160; 50; 1; 66; 0] /\ nx_encode_byte 0 s2 = NxEntropy.
+Proof. vm_compute. repeat split. Qed.
